@@ -797,6 +797,58 @@ def fitting_node(g) -> dict:
     return n
 
 
+_STRUCT_KEYS = ["gain", "offset", "b", "a", "z10", "z9", "Key", "key", "n"]
+
+
+def struct_value(rng, depth: int = 0):
+    """Arbitrarily nested parameter value: mappings inside lists inside mappings ..., keys whose insertion order differs
+    from their sorted order, scalars of every JSON type."""
+    r = rng.random()
+    if depth >= 3 or r < 0.25:
+        return rng.choice([1.0, 2.5, -1.5, 0.0, 3, 0, True, False, None, "x", "out.txt", "", "a b"])
+    if r < 0.65:
+        keys = rng.sample(_STRUCT_KEYS, rng.randint(2, 4))
+        return {k: struct_value(rng, depth + 1) for k in keys}
+    return [struct_value(rng, depth + 1) for _ in range(rng.randint(1, 3))]
+
+
+def struct_node(g) -> dict:
+    """A no-op node holding a structured parameter with at least one mapping inside a list."""
+    rng = g.rng
+    shape = rng.randrange(3)
+    inner = {k: rng.choice([1.0, 2.0, 0.5, "s", True]) for k in rng.sample(_STRUCT_KEYS, rng.randint(2, 3))}
+    if shape == 0:
+        v = [inner, struct_value(rng, 1)]
+    elif shape == 1:
+        v = {"stages": [[inner], struct_value(rng, 2)], "opt": struct_value(rng, 1)}
+    else:
+        v = struct_value(rng, 0)
+    return {"processor": "VCtxMeta", "parameters": {"vmeta": v}}
+
+
+def multi_external_sweep_case(g) -> dict:
+    """A sweep over an element with several required call parameters that no expression binds (they come from the node
+    configuration / the context): their names enter the sweep metadata as a *list* whose order must not depend on anything
+    but the configuration."""
+    rng = g.rng
+    bound = rng.choice(["r", "s", "q"])
+    params = {k: g.val() for k in ("p", "q", "r") if k != bound}
+    ctx = {}
+    for k in list(params):
+        if rng.random() < 0.3:
+            ctx[k] = params.pop(k)
+    sweep = {"processor": "VPoly", "parameters": params,
+             "derive": {"parameter_sweep": {"parameters": {bound: rng.choice(["t", "t * 2.0", "t + 1.0"])},
+                                            "variables": {"t": [g.val() for _ in range(rng.randint(2, 3))]},
+                                            "collection": "FloatDataCollection"}}}
+    if not params:
+        sweep.pop("parameters")
+    nodes = [{"processor": "VSrc", "parameters": {"value": g.val()}}, sweep]
+    if rng.random() < 0.5:
+        nodes.append({"processor": "VCollSum"})
+    return {"nodes": nodes, "ctx": ctx, "data": "NoData"}
+
+
 def fc_case(g) -> dict:
     """A pipeline around one sweep with 2..3 from_context variables reading different keys (plus optional others)."""
     rng = g.rng
@@ -887,7 +939,10 @@ def config_case(g, i: int, fc_share: float = 0.25) -> dict:
 
     r = g.rng.random()
     tags = []
-    if r < fc_share:
+    if r < 0.08:
+        case = multi_external_sweep_case(g)
+        tags.append("multi_external_sweep")
+    elif r < fc_share:
         case = fc_case(g)
         tags.append("fc_sweep")
     elif r < fc_share + 0.35:
@@ -900,6 +955,9 @@ def config_case(g, i: int, fc_share: float = 0.25) -> dict:
     if g.chance(0.3):
         nodes.insert(g.rng.randint(0, len(nodes)), fitting_node(g))
         tags.append("nested_params")
+    if g.chance(0.3):
+        nodes.insert(g.rng.randint(0, len(nodes)), struct_node(g))
+        tags.append("structured_param")
     if g.chance(0.3):
         cands = [k for k, n in enumerate(nodes) if _dup_safe(n)]
         if cands:
